@@ -85,11 +85,29 @@ Theorem C17_fs_injective : forall k1 k2, valid_key k1 -> valid_key k2 ->
 Proof. exact path_injective. Qed.
 Print Assumptions C17_fs_injective.
 
-(* reading a path returns the bytes stored under the hash of the entry the path addresses *)
+(* reading a path returns the bytes stored under the hash of the entry the path addresses, taken from
+   the first storage - in the adaptor's order cache, remote, data - that holds the object; the read
+   succeeds whenever any registered storage holds it and fails only if none does *)
 Theorem C17_fs_read : forall E i p e h b, ok E i ->
   get_q (fs_key p) (load_all E i) = Ok (Some e) -> isdir_raw (norm e) = false ->
   under_sp E (fs_key p) = true -> e_hash e = Some h -> hi_truthy (Some h) = true ->
-  assoc (v_blobs E) h = Some b ->
+  blob_of E h = Some b ->
   snd (fs_read_step E (load_all E i) p) = Ok b.
 Proof. exact fs_read_bytes. Qed.
 Print Assumptions C17_fs_read.
+
+Theorem C17_fs_read_first : forall E h b, blob_of E h = Some b ->
+  exists pre st post, roles_read E = pre ++ Some st :: post /\ assoc (s_blobs st) h = Some b /\
+                      forall st', In (Some st') pre -> assoc (s_blobs st') h = None.
+Proof. exact blob_first. Qed.
+Print Assumptions C17_fs_read_first.
+
+Theorem C17_fs_read_any : forall E h st, In (Some st) (roles_read E) -> assoc (s_blobs st) h <> None ->
+  exists b, blob_of E h = Some b.
+Proof. exact blob_any. Qed.
+Print Assumptions C17_fs_read_any.
+
+Theorem C17_fs_read_none : forall E h, blob_of E h = None <->
+  forall st, In (Some st) (roles_read E) -> assoc (s_blobs st) h = None.
+Proof. exact blob_none. Qed.
+Print Assumptions C17_fs_read_none.
